@@ -13,7 +13,7 @@ use std::sync::{Arc, Mutex};
 use std::task::{Context, Poll};
 
 #[derive(Clone)]
-pub enum COp { Get(GetOp), Make(MakeOp) }
+pub enum COp { Get(GetOp), Make(MakeOp), U2f { app: Vec<u8>, chal: Vec<u8>, handle: Vec<u8> } }
 
 /// a store that suspends once inside every lookup, save and update (a slow backend): behind a lock wrapper the
 /// lock is then held across a suspension point and the wrappers are really contended
@@ -34,7 +34,7 @@ impl Inner for SlowStore {
     fn put(&mut self, p: Passkey) { self.0.insert(p.credential_id.clone().into(), p); }
 }
 
-enum Out { Get(Result<passkey_types::ctap2::get_assertion::Response, passkey_types::ctap2::StatusCode>), Make(Result<passkey_types::ctap2::make_credential::Response, passkey_types::ctap2::StatusCode>) }
+enum Out { U2f(Result<passkey_types::u2f::RegisterResponse, passkey_types::ctap2::U2FError>), Get(Result<passkey_types::ctap2::get_assertion::Response, passkey_types::ctap2::StatusCode>), Make(Result<passkey_types::ctap2::make_credential::Response, passkey_types::ctap2::StatusCode>) }
 
 fn summary(o: Out) -> String {
     match o {
@@ -42,6 +42,8 @@ fn summary(o: Out) -> String {
         Out::Get(Err(e)) => format!("err:{}", u8::from(e)),
         Out::Make(Ok(r)) => format!("ok:{}", r.auth_data.attested_credential_data.as_ref().map(|a| hexf(a.credential_id())).unwrap_or("N".into())),
         Out::Make(Err(e)) => format!("err:{}", u8::from(e)),
+        Out::U2f(Ok(r)) => format!("ok:{}", hexf(&r.key_handle)),
+        Out::U2f(Err(_)) => "err:1".to_string(),
     }
 }
 
@@ -65,6 +67,11 @@ fn execute_f<S: Inner + Clone + 'static>(shared: S, counter_on: bool, ops: &[COp
         match op.clone() {
             COp::Get(g) => { let req = g.real_pub(); futs.push(Box::pin(async move { Out::Get(a.get_assertion(req).await) })); }
             COp::Make(m) => { let req = m.real_pub(); futs.push(Box::pin(async move { Out::Make(a.make_credential(req).await) })); }
+            COp::U2f { app, chal, handle } => {
+                let mut a32 = [0u8; 32]; a32.copy_from_slice(&app[..32]); let mut c32 = [0u8; 32]; c32.copy_from_slice(&chal[..32]);
+                let req = passkey_types::u2f::RegisterRequest { challenge: c32, application: a32 };
+                futs.push(Box::pin(async move { Out::U2f(passkey_authenticator::U2fApi::register(a, req, &handle).await) }));
+            }
         }
     }
     let w = noop_waker();
@@ -125,7 +132,8 @@ fn scenario<S: Inner + Clone + 'static>(ctx: &mut Ctx, kind_name: &str, mk: &dyn
             Some((sums, _, store, draws)) => {
                 for (i, op) in ops.iter().enumerate() {
                     match op { COp::Get(g) => ctx.line(&format!("cc.thread G {} {}", g.enc(), uv.enc()), ""),
-                               COp::Make(m) => ctx.line(&format!("cc.thread M {} {} {}", m.enc(), uv.enc(), draws[i]), "") }
+                               COp::Make(m) => ctx.line(&format!("cc.thread M {} {} {}", m.enc(), uv.enc(), draws[i]), ""),
+                               COp::U2f { handle, .. } => ctx.line(&format!("cc.thread U {}", hexf(handle)), "") }
                 }
                 ctx.line(&format!("cc.run {}", sched.iter().map(|i| i.to_string()).collect::<Vec<_>>().join(",")), &format!("res={} store={}", sums.join("|"), store));
             }
@@ -150,7 +158,8 @@ fn scenario_slow<S: Inner + Clone + 'static>(ctx: &mut Ctx, label: &str, mk: &dy
             Some((sums, _, store, draws)) => {
                 for (i, op) in ops.iter().enumerate() {
                     match op { COp::Get(g) => ctx.line(&format!("cc.thread G {} {}", g.enc(), uv.enc()), ""),
-                               COp::Make(m) => ctx.line(&format!("cc.thread M {} {} {}", m.enc(), uv.enc(), draws[i]), "") }
+                               COp::Make(m) => ctx.line(&format!("cc.thread M {} {} {}", m.enc(), uv.enc(), draws[i]), ""),
+                               COp::U2f { handle, .. } => ctx.line(&format!("cc.thread U {}", hexf(handle)), "") }
                 }
                 let sums: Vec<String> = sums.into_iter().filter(|s| !s.starts_with("extra-rounds")).collect();
                 ctx.line(&format!("cc.slow {} {}", label, sched.iter().map(|i| i.to_string()).collect::<Vec<_>>().join(",")), &format!("res={} store={}", sums.join("|"), store));
@@ -187,7 +196,8 @@ fn scenario_spec<S: Inner + Clone + 'static>(ctx: &mut Ctx, kind_name: &str, lab
             Some((sums, _, store, draws)) => {
                 for (i, op) in ops.iter().enumerate() {
                     match op { COp::Get(g) => ctx.line(&format!("cc.thread G {} {}", g.enc(), uv.enc()), ""),
-                               COp::Make(m) => ctx.line(&format!("cc.thread M {} {} {}", m.enc(), uv.enc(), draws[i]), "") }
+                               COp::Make(m) => ctx.line(&format!("cc.thread M {} {} {}", m.enc(), uv.enc(), draws[i]), ""),
+                               COp::U2f { handle, .. } => ctx.line(&format!("cc.thread U {}", hexf(handle)), "") }
                 }
                 ctx.line(&format!("cc.spec {} {}", label, s), &format!("res={} store={}", sums.join("|"), store));
             }
@@ -225,6 +235,25 @@ pub fn gen(ctx: &mut Ctx) {
             ("silent-3", vec![get(ctx, false), get(ctx, false), get(ctx, false)], silent, vec![])] {
             if wrapper == 0 { scenario_spec(ctx, "map", label, &|pre: &[Passkey]| Arc::new(tokio::sync::Mutex::new(fill(pre))), &pre, &ops, uv, &faults); }
             else { scenario_spec(ctx, "map", label, &|pre: &[Passkey]| Arc::new(tokio::sync::RwLock::new(fill(pre))), &pre, &ops, uv, &faults); }
+        }
+    }
+    // ---- U2F registrations beside each other and beside CTAP ceremonies on a shared store, with a save the store refuses
+    for wrapper in 0..2 {
+        let id = vec![0xC1, 0x9C, 1, 2, 3, 4, 5, 6, 7, 8, 9, 10, 11, 12, 13, 14];
+        let pk = make_passkey(ctx, id.clone(), rp, Some(vec![7]), Some(5), None);
+        let u2f = |ctx: &mut Ctx, n: usize| COp::U2f { app: ctx.rng.bytes(32), chal: ctx.rng.bytes(32), handle: ctx.rng.bytes(n) };
+        let get = |ctx: &mut Ctx| { let mut g = simple_get(ctx, rp); g.allow = Some(vec![id.clone()]); COp::Get(g) };
+        let make = |ctx: &mut Ctx| { let mut m = simple_make(ctx, rp); m.rk = false; COp::Make(m) };
+        let fill = |pre: &[Passkey]| { let mut m = MemoryStore::new(); for p in pre { m.insert(p.credential_id.clone().into(), p.clone()); } m };
+        let pre = vec![pk.clone()];
+        for (label, ops, faults) in [
+            ("u2f-u2f", vec![u2f(ctx, 16), u2f(ctx, 64)], vec![]),
+            ("u2f-u2f-save-refused", vec![u2f(ctx, 16), u2f(ctx, 32)], vec![vec![], vec![Some(0x28u8)]]),
+            ("u2f-u2f-first-save-refused", vec![u2f(ctx, 1), u2f(ctx, 255)], vec![vec![Some(0x7Fu8)], vec![]]),
+            ("u2f-make", vec![u2f(ctx, 20), make(ctx)], vec![]),
+            ("u2f-get-u2f", vec![u2f(ctx, 16), get(ctx), u2f(ctx, 48)], vec![vec![], vec![], vec![Some(0x28u8)]])] {
+            if wrapper == 0 { scenario_spec(ctx, "map", label, &|pre: &[Passkey]| Arc::new(tokio::sync::Mutex::new(fill(pre))), &pre, &ops, UvState::ok(), &faults); }
+            else { scenario_spec(ctx, "map", label, &|pre: &[Passkey]| Arc::new(tokio::sync::RwLock::new(fill(pre))), &pre, &ops, UvState::ok(), &faults); }
         }
     }
     // ---- a slow backend behind each wrapper: the lock is held across a suspension point
